@@ -1,6 +1,7 @@
 """C03 — pretty-printed text says exactly what the dictionary says."""
 from props import common
 
+from props import plans
 from props.plans import ALL_MODULES as MODULES
 
 
@@ -30,6 +31,7 @@ CANARIES = [
 def run(tier, seed, only=None):
     return common.standard_run(
         "C03", tier, seed, "proof", MODULES, pred, canaries=CANARIES, only=only,
+        b_checks=[plans.seam("b_reader"), plans.seam("b_numbers")],
         explanation=("format_value is verified per schema slot (quick: one slot per distinct schema shape; thorough: all "
                      "349 slots) x admitted value kind x output quote against spec.render (written from the statement and "
                      "the schemas): lexical class of every value, refusal of the empty dict; structure (every non-hidden "
